@@ -3,6 +3,7 @@
 package main
 
 import (
+	"runtime"
 	"flag"
 	"fmt"
 	"os"
@@ -30,6 +31,10 @@ func main() {
 	// on timers that only fire when every goroutine is idle).  Runs are chunked by bin/check,
 	// so memory stays bounded without it.
 	debug.SetGCPercent(-1)
+	// one P: under the fake clock a collection (wire.Out forces one now and then) can wait for ever
+	// for an idle P to acknowledge it; with a single P there is nobody to wait for.  Streams are run
+	// in parallel as separate processes.
+	runtime.GOMAXPROCS(1)
 
 	var o *wire.Out
 	switch *stream {
